@@ -132,6 +132,21 @@ CALLS['mef.get_transform_fxn(full)'] = (lambda s, a: FlowCal.mef.get_transform_f
     statistic_params=a['sparams'], selection_fxn=None, selection_params=a['selparams'], fitting_params=a['fparams'], full_output=True), True, False)
 CALLS['mef.get_transform_fxn(function)'] = (lambda s, a: FlowCal.mef.get_transform_fxn(
     a['beads'], a['mef_values'], a['mef_channels'], clustering_fxn=a['clustering_fxn'], selection_fxn=None), True, False)
+def _outcome(fn):
+    try:
+        return fn()
+    except ValueError as e:
+        return 'ValueError: ' + str(e)[:60]
+
+
+# default population selection with its own parameters left out / given as the caller's empty dictionary, while the clustering step gets a scale
+CALLS['mef.get_transform_fxn(clustering scale, default selection)'] = (lambda s, a: _outcome(lambda: [list(map(float, x)) for x in FlowCal.mef.get_transform_fxn(
+    a['beads_pos'], a['mef_values'], a['mef_channels'], clustering_fxn=a['clustering_fxn'], clustering_params=a['cparams_scale'], full_output=True).selection['rfi']]), True, False)
+CALLS['mef.get_transform_fxn(clustering scale, own selection dict)'] = (lambda s, a: [list(map(float, x)) for x in FlowCal.mef.get_transform_fxn(
+    a['beads_pos'], a['mef_values'], a['mef_channels'], clustering_fxn=a['clustering_fxn'], clustering_params=a['cparams_scale'], selection_params=a['selparams_empty'],
+    full_output=True).selection['rfi']], True, False)
+CALLS['mef.get_transform_fxn(all defaults but clustering_fxn)'] = (lambda s, a: _outcome(lambda: [list(map(float, x)) for x in FlowCal.mef.get_transform_fxn(
+    a['beads_pos'], a['mef_values'], a['mef_channels'], clustering_fxn=a['clustering_fxn'], full_output=True).selection['rfi']]), True, False)
 CALLS['plot._LogicleTransform'] = (lambda s, a: (lambda t: (t.T, t.M, t.W))(FlowCal.plot._LogicleTransform(data=s, channel=s.channels[2])), True, False)
 CALLS['plot._LogicleTransform(list)'] = (lambda s, a: (lambda t: (t.T, t.M, t.W))(FlowCal.plot._LogicleTransform(data=a['pops'], channel=0)), True, False)
 
@@ -151,6 +166,11 @@ for _sc in ('linear', 'log', 'logicle'):
     CALLS['plot.hist1d(%s)' % _sc] = (_plot((lambda sc: (lambda s, a: FlowCal.plot.hist1d(s + 1, channel=s.channels[2], xscale=sc, bins=16)))(_sc)), True, False)
     CALLS['plot.density2d(%s,bins list)' % _sc] = (_plot((lambda sc: (lambda s, a: FlowCal.plot.density2d(s + 1, channels=a['chs2'], bins=a['bins2'], xscale=sc, yscale=sc, mode='scatter')))(_sc)), True, False)
 CALLS['plot.hist1d(list,bins arr)'] = (_plot(lambda s, a: FlowCal.plot.hist1d(a['pops_full'], channel=1, bins=a['edges'], xscale='linear')), True, False)
+# colour lists with entries left to the default (None)
+CALLS['plot.hist1d(list,colors with None)'] = (_plot(lambda s, a: FlowCal.plot.hist1d(a['pops_full'], channel=1, bins=a['edges'], xscale='linear', histtype='stepfilled',
+                                                                                        facecolor=a['fc_none'], edgecolor=a['ec_none'])), True, False)
+CALLS['plot.hist1d(list,step,colors with None)'] = (_plot(lambda s, a: FlowCal.plot.hist1d(a['pops_full'], channel=1, bins=a['edges'], xscale='linear', histtype='step',
+                                                                                             edgecolor=a['ec_none'])), True, False)
 CALLS['plot.scatter2d'] = (_plot(lambda s, a: FlowCal.plot.scatter2d(a['pops_full'], channels=a['chs2'])), True, False)
 # violin plots: populations given as float samples / arrays, linear and log position axes (position 0 on a log axis is drawn apart)
 for _xs in ('linear', 'log'):
@@ -203,6 +223,7 @@ def build_args(s, rng, floaty):
         'beads': s, 'mef_values': [[0., 700., 4000., 13000.], [None, 800., 5000., 21000.]], 'mef_channels': [names[2], names[1]],
         'clustering_fxn': (lambda data, n, **kw: (np.arange(data.shape[0]) * n) // data.shape[0]), 'cparams': {}, 'sparams': {}, 'selparams': {'scale': 'linear'},
         # caller-owned containers handed to the segment readers: the declared ranges need more bits than the 8-bit parameter is wide
+        'beads_pos': s + 1, 'cparams_scale': {'scale': 'log'}, 'selparams_empty': {'n_std_low': 0., 'n_std_high': 0.}, 'fc_none': [None, 'tab:red'], 'ec_none': [None, None],
         'seg_path': _segment_file(), 'seg_widths': [8, 16], 'seg_ranges': [1024., 65536.], 'seg_ranges_arr': np.array([1024., 65536.]),
         'fparams': {}, 'dparams': {'mode': 'scatter', 'bins': [8, 8]}, 'hparams': [{'bins': 8}, {'bins': 8}],
     }
